@@ -149,6 +149,29 @@ func c13Run(c *Ctx, w *World, meIdx int, round string, doPoll bool, double bool)
 	}
 	runCases(c, cases)
 
+	// starting the process on an existing state directory changes nothing durable - the saved board
+	// offset included (a node that forgot it would handle the whole board again)
+	for _, k := range []int{1, 5, len(h)} {
+		e := NewNodeEnv(newEnvDir(c), me)
+		for _, it := range h[:k] {
+			applyItem(e, it)
+		}
+		if err := e.St.SaveOffset(uint64(k)); err != nil {
+			panic(err)
+		}
+		snap1 := e.Snapshot()
+		e.Restart()
+		off, err := e.St.LoadOffset()
+		snap2 := e.Snapshot()
+		e.Close()
+		c.Case("restart-offset", true, "skip restart-offset", "skip restart-offset")
+		if err != nil || off != uint64(k) || snap1 != snap2 {
+			fail("restart-changes-durable-state", map[string]interface{}{},
+				fmt.Sprintf("after a restart on its state directory the node resumes from offset %d, it had saved %d (or its rounds/operations changed)", off, k),
+				map[string]interface{}{"saved_offset": k, "offset_after_restart": off, "before": snap1, "after": snap2})
+		}
+	}
+
 	// the real Poll loop: the node is killed while handling the first message of the board; after the
 	// restart the loop must fetch that message again (offset saved only after handling)
 	if !doPoll {
